@@ -483,6 +483,23 @@ def runEvents (cfg : Cfg) : State → List Event → Option State
 
 example : ((runEvents exCfg (init exCfg) exRun).map (·.d2r)) = some [.taskFinished, .benchComplete] := by decide
 
+open RaceOfAlloc in
+/-- **finite_schedule_race_completes** — end to end over both models: for ANY schedule whose tasks all end by
+    themselves and ANY layout of its clients over started workers, every run of the race that only idle polls can
+    extend has delivered one TaskFinished per schedule element and BenchmarkComplete, after at most `pot` state-changing
+    steps — whatever the interleaving of messages, wake-ups and executor progress. -/
+theorem finite_schedule_race_completes (finite : Nat → Bool) (sched : List Alloc.Element) (workers : List (List Nat))
+    (hw : workers ≠ []) (hf : ∀ id, finite id = true) (s' : State) (n : Nat)
+    (h : Run (cfgOf finite sched workers) (init (cfgOf finite sched workers)) n s')
+    (hmax : ∀ e s'', step (cfgOf finite sched workers) s' e = some s'' → ¬ Changed s' s'') :
+    n ≤ pot (cfgOf finite sched workers) (init (cfgOf finite sched workers)) ∧
+    s'.d2r = List.replicate sched.length MsgDR.taskFinished ++ [MsgDR.benchComplete] := by
+  have hwf := cfgOf_wf finite sched workers hw
+  have hce := allFinite_canEnd _ (cfgOf_allFinite finite sched workers hf)
+  refine ⟨runs_are_bounded _ hwf s' n h, ?_⟩
+  have := (maximal_run_is_complete _ hwf hce s' n h hmax).2
+  simpa [cfgOf] using this
+
 /-- the measure of the example configuration bounds the state-changing steps of every run of it by 26; the complete
     run above has 17 events -/
 example : pot exCfg (init exCfg) = 26 ∧ exRun.length = 17 := by decide
